@@ -3396,7 +3396,13 @@ static void mark_live(Obj *var) {
 }
 
 static Token *function(Token *tok, Type *basety, VarAttr *attr) {
+  // Tags and enumerators declared in the parameter list belong to
+  // the scope of the function, not to the enclosing scope.
+  enter_scope();
   Type *ty = declarator(&tok, tok, basety);
+  Scope *fn_scope = scope;
+  leave_scope();
+
   if (!ty->name)
     error_tok(ty->name_pos, "function name omitted");
   char *name_str = get_ident(ty->name);
@@ -3426,7 +3432,7 @@ static Token *function(Token *tok, Type *basety, VarAttr *attr) {
 
   current_fn = fn;
   locals = NULL;
-  enter_scope();
+  scope = fn_scope;
   create_param_lvars(ty->params);
 
   // A buffer for a struct/union return value is passed
@@ -3493,8 +3499,12 @@ static bool is_function(Token *tok) {
   if (equal(tok, ";"))
     return false;
 
+  // This is only a lookahead: tags declared in a parameter list
+  // must not be left behind in the current scope.
   Type dummy = {};
+  enter_scope();
   Type *ty = declarator(&tok, tok, &dummy);
+  leave_scope();
   return ty->kind == TY_FUNC;
 }
 
